@@ -704,3 +704,5 @@ def run(chk):
         # into the scriptSig, not refused by an assertion (rule shared with C17)
         from . import c17
         chk.guard("R11.12", "scriptsig-elements", c17.check_scriptsig_encoding, chk, F, "R11.12")
+        # Satisfaction::satisfy's expect("the same satisfier should manage to complete the template") cannot fire (shared with C17)
+        chk.guard("R11.13", "template-completable", c17.check_template_completable, chk, F, "R11.13")
